@@ -22,7 +22,7 @@ import (
 // connection. If a password is specified, then the xts VFS will be used
 // with a text key.
 func Open(filename, password string) (*DB, error) {
-	query := "?_pragma=foreign_keys(on)"
+	query := "?_pragma=foreign_keys(on)&_pragma=busy_timeout(10000)"
 	if password != "" {
 		query += fmt.Sprintf("&vfs=xts&_pragma=textkey(%q)&_pragma=temp_store(memory)", password)
 	}
